@@ -1,4 +1,305 @@
-From Coq Require Import ZArith List Bool.
+(* C17 — hourly data preparation keeps what was measured and flags what was filled.
+   Statements only; proofs are in Proofs/HourlyPrepProofs.v; the model is Model/HourlyPrep.v.
+
+   Every theorem is universally quantified over the payload type [A], the zero test, the interpolation function
+   [lin] and — the point of the property — over the autocorrelation imputer [est]: an ARBITRARY function.
+   [prep_col ... rows c] is the prepared column c of the frame: a list of (stamp, value, interpolated_<c>).
+   [supplied ... rows t c] is what the caller supplied at stamp t: the cell of the FIRST row carrying t, a zero
+   electricity reading being missing. *)
+From Coq Require Import ZArith List Bool Lia.
 From V Require Import Model.HourlyPrep Proofs.HourlyPrepProofs.
-Theorem C17_stub : STEP = 60%Z. Proof. exact stub_l. Qed.
-Print Assumptions C17_stub.
+Import ListNotations.
+Open Scope Z_scope.
+
+Section Statements.
+  Variable A : Type.
+  Variable is_zero : A -> bool.
+  Variable lin : A -> A -> Z -> Z -> A.
+  Variable est : colname -> col A -> col A.
+
+  (* ---------------------------------------------------------------- the statement, for one input *)
+  Definition C17_for (elec : bool) (bnds : list Z) (e : edges) (rows : list (row A)) (c : colname) : Prop :=
+    let out := prep_col is_zero lin est elec bnds e rows c in
+    let sup := fun t => supplied is_zero elec rows t c in
+    (* a gap-free hourly frame covering whole local days from the first to the last supplied day *)
+    whole_days_for A bnds rows out /\
+    (* every supplied value appears unchanged at its timestamp, and is not flagged *)
+    (forall r a, In r rows -> sup (ts r) = Some a -> In (ts r, Some a, false) out) /\
+    (* a value is flagged exactly when it had to be filled *)
+    (forall t v f, In (t, v, f) out -> (f = true <-> sup t = None /\ v <> None)) /\
+    (* nothing remains missing unless the whole column was empty *)
+    ((exists r a, In r rows /\ sup (ts r) = Some a) -> forall t v f, In (t, v, f) out -> v <> None).
+End Statements.
+
+(* the full statement: any calendar (any time zone), any situation of the first / last stamp *)
+Definition C17_statement : Prop :=
+  forall A is_zero lin est elec bnds e (rows : list (row A)) c,
+    rows <> [] -> ascending bnds -> (forall r, In r rows -> covers bnds (ts r)) ->
+    C17_for A is_zero lin est elec bnds e rows c.
+
+(* ---------------------------------------------------------------- what holds for every input and every estimator *)
+
+(* a row of the frame whose stamp carries a supplied value has exactly that value and is not flagged *)
+Theorem C17_no_supplied_flagged : forall A is_zero lin est elec bnds e (rows : list (row A)) c t v f a,
+  In (t, v, f) (prep_col is_zero lin est elec bnds e rows c) ->
+  supplied is_zero elec rows t c = Some a -> v = Some a /\ f = false.
+Proof. exact frame_supplied_row. Qed.
+Print Assumptions C17_no_supplied_flagged.
+
+Theorem C17_flags_exact : forall A is_zero lin est elec bnds e (rows : list (row A)) c t v f,
+  In (t, v, f) (prep_col is_zero lin est elec bnds e rows c) ->
+  (f = true <-> supplied is_zero elec rows t c = None /\ v <> None).
+Proof. exact frame_flags_exact. Qed.
+Print Assumptions C17_flags_exact.
+
+(* as soon as one supplied value made it into the frame, no cell of the column is missing *)
+Theorem C17_complete_unless_empty : forall A is_zero lin est elec bnds e (rows : list (row A)) c,
+  (exists t a v f, In (t, v, f) (prep_col is_zero lin est elec bnds e rows c) /\ supplied is_zero elec rows t c = Some a) ->
+  forall t v f, In (t, v, f) (prep_col is_zero lin est elec bnds e rows c) -> v <> None.
+Proof. exact frame_complete. Qed.
+Print Assumptions C17_complete_unless_empty.
+
+(* one row per absolute hour: the stamps are lo, lo+60, ..., without repetition *)
+Theorem C17_gap_free : forall A is_zero lin est elec bnds e (rows : list (row A)) c,
+  exists lo hi, frame_range bnds e rows = (lo, hi) /\
+    stamps A (prep_col is_zero lin est elec bnds e rows c) = grid lo hi /\
+    NoDup (grid lo hi) /\
+    forall i a b, nth_error (grid lo hi) i = Some a -> nth_error (grid lo hi) (S i) = Some b -> b = a + STEP.
+Proof.
+  intros. destruct (frame_gap_free A is_zero lin est elec bnds e rows c) as [lo [hi [E S]]].
+  exists lo, hi. repeat split; [exact E | exact S | apply grid_NoDup | apply grid_step].
+Qed.
+Print Assumptions C17_gap_free.
+
+(* later rows with a stamp already seen are ignored: the first one wins *)
+Theorem C17_first_duplicate_wins : forall A is_zero lin est elec bnds e (l1 : list (row A)) r l2 r' l3 c,
+  ts r' = ts r ->
+  prep_col is_zero lin est elec bnds e (l1 ++ r :: l2 ++ r' :: l3) c =
+  prep_col is_zero lin est elec bnds e (l1 ++ r :: l2 ++ l3) c.
+Proof. exact first_duplicate_wins_l. Qed.
+Print Assumptions C17_first_duplicate_wins.
+
+(* a zero reading is missing for electricity and a value for gas *)
+Theorem C17_zero_electric_is_missing : forall A (is_zero : A -> bool) (rows : list (row A)) t r z,
+  lookup t rows = Some r -> r_obs r = Some z -> is_zero z = true ->
+  supplied is_zero true rows t Obs = None /\ supplied is_zero false rows t Obs = Some z.
+Proof. exact zero_electric_missing_l. Qed.
+Print Assumptions C17_zero_electric_is_missing.
+
+Theorem C17_nonzero_usage_is_supplied : forall A (is_zero : A -> bool) elec (rows : list (row A)) t r z,
+  lookup t rows = Some r -> r_obs r = Some z -> is_zero z = false -> supplied is_zero elec rows t Obs = Some z.
+Proof. exact supplied_nonzero. Qed.
+Print Assumptions C17_nonzero_usage_is_supplied.
+
+(* so a zero electricity reading that the frame covers is reported as interpolated exactly when it got a value *)
+Theorem C17_zero_electric_is_flagged : forall A is_zero lin est bnds e (rows : list (row A)) t r z v f,
+  lookup t rows = Some r -> r_obs r = Some z -> is_zero z = true ->
+  In (t, v, f) (prep_col is_zero lin est true bnds e rows Obs) -> (f = true <-> v <> None).
+Proof.
+  intros A is_zero lin est bnds e rows t r z v f L O Z I.
+  destruct (zero_electric_missing_l A is_zero rows t r z L O Z) as [S _].
+  rewrite (frame_flags_exact A is_zero lin est true bnds e rows Obs t v f I). rewrite S. tauto.
+Qed.
+Print Assumptions C17_zero_electric_is_flagged.
+
+(* _create_sufficiency_df (blank what is flagged) gives back exactly what was supplied, stamp by stamp *)
+Theorem C17_sufficiency_sees_supplied : forall A is_zero lin est elec bnds e (rows : list (row A)) c,
+  exists lo hi, frame_range bnds e rows = (lo, hi) /\
+    sufficiency_col (prep_col is_zero lin est elec bnds e rows c) =
+    map (fun t => (t, supplied is_zero elec rows t c)) (grid lo hi).
+Proof. exact frame_sufficiency. Qed.
+Print Assumptions C17_sufficiency_sees_supplied.
+
+(* the imputer's proposal is only ever used where a cell is missing; each fall-back keeps what is there *)
+Theorem C17_interpolation_keeps : forall A lin est c (x : col A),
+  keeps A x (interp_col lin est c x) /\ length (interp_col lin est c x) = length x.
+Proof. intros. split; [apply interp_col_keeps | apply interp_col_length]. Qed.
+Print Assumptions C17_interpolation_keeps.
+
+(* ffill followed by bfill alone complete a column that has a value (the time method makes them idle today) *)
+Theorem C17_last_fallbacks_suffice : forall A (x : col A), has_value A x -> all_present A (bfill (ffill x)).
+Proof. exact bfill_ffill_complete. Qed.
+Print Assumptions C17_last_fallbacks_suffice.
+
+(* what the correspondence executes (reindex through a finite map) is the frame the theorems speak about *)
+Theorem C17_fast_model_agrees : forall A is_zero lin est elec bnds e (rows : list (row A)) c,
+  prep_col_fast is_zero lin est elec bnds e rows c = prep_col is_zero lin est elec bnds e rows c.
+Proof. exact prep_col_fast_eq. Qed.
+Print Assumptions C17_fast_model_agrees.
+
+(* ---------------------------------------------------------------- what needs the calendar to be regular *)
+(* [well_formed bnds rows]: non-empty input, ascending day starts that are whole hours apart and cover the input, input
+   stamps on the hour.  [no_skip]: the first / last stamp is not in one of the two `fold` situations of
+   Model/HourlyPrep.v. *)
+
+Theorem C17_whole_days : forall A is_zero lin est elec bnds (rows : list (row A)) c, well_formed A bnds rows ->
+  whole_days_for A bnds rows (prep_col is_zero lin est elec bnds no_skip rows c).
+Proof. exact frame_whole_days_iff. Qed.
+Print Assumptions C17_whole_days.
+
+Theorem C17_supplied_preserved : forall A is_zero lin est elec bnds (rows : list (row A)) c r a,
+  well_formed A bnds rows -> In r rows -> supplied is_zero elec rows (ts r) c = Some a ->
+  In (ts r, Some a, false) (prep_col is_zero lin est elec bnds no_skip rows c).
+Proof. exact frame_supplied_preserved. Qed.
+Print Assumptions C17_supplied_preserved.
+
+Theorem C17_complete_unless_column_empty : forall A is_zero lin est elec bnds (rows : list (row A)) c,
+  well_formed A bnds rows -> (exists r a, In r rows /\ supplied is_zero elec rows (ts r) c = Some a) ->
+  forall t v f, In (t, v, f) (prep_col is_zero lin est elec bnds no_skip rows c) -> v <> None.
+Proof. exact frame_complete_wf. Qed.
+Print Assumptions C17_complete_unless_column_empty.
+
+(* the statement under the exact guard: whole-hour calendar, stamps on the hour, no `fold` situation *)
+Theorem C17_statement_partial : forall A is_zero lin est elec bnds (rows : list (row A)) c,
+  well_formed A bnds rows -> C17_for A is_zero lin est elec bnds no_skip rows c.
+Proof.
+  intros A is_zero lin est elec bnds rows c WF. unfold C17_for. cbn zeta.
+  split; [apply frame_whole_days_iff; exact WF|].
+  split; [intros r a HR HS; apply frame_supplied_preserved; auto|].
+  split; [intros t v f HI; apply (frame_flags_exact A is_zero lin est elec bnds no_skip rows c t v f HI)|].
+  apply frame_complete_wf; exact WF.
+Qed.
+Print Assumptions C17_statement_partial.
+
+(* ---------------------------------------------------------------- where the code as it is breaks the full statement
+   (witnesses over the payload Z: Proofs/HourlyPrepProofs.v, "concrete witnesses"; each is replayed on the
+   implementation: corpus/C17.json, known findings C17-F1 .. C17-F5) *)
+
+(* the last supplied day ends with a repeated 23:00 (25 hours: boundaries 0 and 1500) and the last supplied stamp is not
+   the second 23:00: latest.replace(hour=23) is the first 23:00 ([hi_back] = 120) and the hour 1440 is not in the frame *)
+Theorem C17_whole_days_refuted_last :
+  exists bnds e (rows : list (row Z)) t,
+    well_formed Z bnds rows /\ lo_fwd e = 0 /\ hi_back e = 120 /\
+    0 <= t < 1500 /\ (t - 0) mod STEP = 0 /\
+    ~ In t (stamps Z (prep_col zzero zlin id_est true bnds e rows Temp)).
+Proof.
+  exists w_bnds, (mkedges 0 120), (w_rows 600), 1440.
+  split; [apply w_wf; [lia | reflexivity]|]. split; [reflexivity|]. split; [reflexivity|].
+  split; [lia|]. split; [reflexivity | exact w_last_not_in].
+Qed.
+Print Assumptions C17_whole_days_refuted_last.
+
+(* the first supplied stamp is the second 00:00 of a day whose 00:00 occurs twice: the frame starts there
+   ([lo_fwd] = 60) and stamp 0 — the first 00:00 of that day — is not in it *)
+Theorem C17_whole_days_refuted_first :
+  exists bnds e (rows : list (row Z)) t,
+    well_formed Z bnds rows /\ lo_fwd e = 60 /\ hi_back e = 60 /\
+    0 <= t < 1500 /\ (t - 0) mod STEP = 0 /\
+    ~ In t (stamps Z (prep_col zzero zlin id_est true bnds e rows Temp)).
+Proof.
+  exists w_bnds, (mkedges 60 60), (w_rows 60), 0.
+  split; [apply w_wf; [lia | reflexivity]|]. split; [reflexivity|]. split; [reflexivity|].
+  split; [lia|]. split; [reflexivity | exact w_first_not_in].
+Qed.
+Print Assumptions C17_whole_days_refuted_first.
+
+(* a calendar whose day starts are not whole hours apart (the clock was moved by 30 minutes: the second day starts at
+   minute 1410): the row supplied at local 01:00 of the second day (1470) is on the hour but off the absolute-hour grid
+   that starts at 0; reindex drops it and the frame carries an interpolated, flagged value at 1440 instead *)
+Theorem C17_supplied_preserved_refuted :
+  exists bnds (rows : list (row Z)) r a,
+    ascending bnds /\ (forall r, In r rows -> covers bnds (ts r)) /\ In r rows /\
+    supplied zzero true rows (ts r) Temp = Some a /\
+    ~ In (ts r) (stamps Z (prep_col zzero zlin id_est true bnds no_skip rows Temp)) /\
+    In (1440, Some 5, true) (prep_col zzero zlin id_est true bnds no_skip rows Temp).
+Proof.
+  exists s_bnds, s_rows, (R 1470 (Some 9) (Some 2) None), 9.
+  split; [exact s_ascending|]. split; [exact s_covers|]. split; [right; left; reflexivity|].
+  split; [exact s_supplied|]. split; [exact s_dropped | exact s_filled].
+Qed.
+Print Assumptions C17_supplied_preserved_refuted.
+
+(* hence the full statement does not hold of the code as it is *)
+Theorem C17_statement_refuted : ~ C17_statement.
+Proof.
+  intros S.
+  specialize (S Z zzero zlin id_est true w_bnds (mkedges 0 120) (w_rows 600) Temp).
+  destruct (w_wf 600 ltac:(lia) eq_refl) as [N [Asc [_ [Cov _]]]].
+  destruct (S N Asc Cov) as [W _]. clear S.
+  apply w_last_not_in.
+  apply (W 600 600 0 1500 (w_min 600) (w_max 600) (w_day_start 600 ltac:(lia)) (w_next_day 600 ltac:(lia))).
+  split; [lia | reflexivity].
+Qed.
+Print Assumptions C17_statement_refuted.
+
+(* ---------------------------------------------------------------- non-vacuity: a concrete four-day input
+   four local days of 24, 23 (spring forward), 24, 25 (fall back) hours; rows with holes, an absent stretch, a
+   duplicated stamp (second value 77), a zero reading, no irradiance; the estimator proposes 99 everywhere for
+   temperature and usage (it must only be used on the missing cells).  96 rows > 72, so the autocorrelation stage is on. *)
+Definition ex_bnds : list Z := [0; 1440; 2820; 4260; 5760].
+Definition ex_est (c : colname) (x : col Z) : col Z := match c with Ghi => x | _ => map (fun _ => Some 99) x end.
+Fixpoint ex_rows_from (n : nat) (t : Z) : list (row Z) :=
+  match n with
+  | O => []
+  | S n' => R t (if (t mod 420 =? 0) then None else Some (t / 60)) (if t =? 600 then Some 0 else Some (1 + t / 60)) None
+            :: ex_rows_from n' (t + 60)
+  end.
+(* stamps 180 .. 5400, minus the stretch 1200 .. 1740, plus a duplicate of stamp 300 at the end *)
+Definition ex_rows : list (row Z) :=
+  filter (fun r => (ts r <? 1200) || (1740 <? ts r)) (ex_rows_from 88 180) ++ [R 300 (Some 77) (Some 77) (Some 77)].
+
+Example ex_well_formed : well_formed Z ex_bnds ex_rows.
+Proof.
+  split; [discriminate|].
+  split; [cbn; repeat split; intros b H; lia|].
+  split.
+  { intros b b' H H'. cbn in H, H'. unfold STEP.
+    destruct H as [H | [H | [H | [H | [H | []]]]]]; destruct H' as [H' | [H' | [H' | [H' | [H' | []]]]]]; subst; reflexivity. }
+  split.
+  { intros r H. split.
+    - exists 0. split; [left; reflexivity|].
+      assert (F : forallb (fun r => 0 <=? ts r) ex_rows = true) by (vm_compute; reflexivity).
+      rewrite forallb_forall in F. apply Z.leb_le. apply F. exact H.
+    - exists 5760. split; [do 4 right; left; reflexivity|].
+      assert (F : forallb (fun r => ts r <? 5760) ex_rows = true) by (vm_compute; reflexivity).
+      rewrite forallb_forall in F. apply Z.ltb_lt. apply F. exact H. }
+  intros r b H B.
+  assert (F : forallb (fun r => forallb (fun b => (ts r - b) mod STEP =? 0) ex_bnds) ex_rows = true) by (vm_compute; reflexivity).
+  rewrite forallb_forall in F. specialize (F r H). rewrite forallb_forall in F. apply Z.eqb_eq. apply F. exact B.
+Qed.
+
+Definition ex_out (c : colname) := prep_col zzero zlin ex_est true ex_bnds no_skip ex_rows c.
+
+(* the frame has the 96 hours of the four days; a supplied value is kept (stamp 300: the first row wins, not 77);
+   the estimator's 99 fills a missing cell and is flagged; the zero reading at 600 is treated as missing and filled *)
+Example ex_frame : length (ex_out Temp) = 96%nat /\ hd_error (stamps Z (ex_out Temp)) = Some 0 /\
+  In (300, Some 5, false) (ex_out Temp) /\ In (420, Some 99, true) (ex_out Temp) /\
+  In (600, Some 99, true) (ex_out Obs) /\ In (1500, Some 99, true) (ex_out Temp) /\
+  forallb (fun p : Z * option Z * bool => missing (snd (fst p)) && negb (snd p)) (ex_out Ghi) = true.
+Proof.
+  split; [vm_compute; reflexivity|]. split; [vm_compute; reflexivity|].
+  split; [apply in_by_t3; vm_compute; reflexivity|]. split; [apply in_by_t3; vm_compute; reflexivity|].
+  split; [apply in_by_t3; vm_compute; reflexivity|]. split; [apply in_by_t3; vm_compute; reflexivity|].
+  vm_compute; reflexivity.
+Qed.
+
+(* hypotheses of the theorems are met by it: supplied cells, missing cells, a zero reading, a duplicated stamp *)
+Example ex_supplied : exists r a, In r ex_rows /\ supplied zzero true ex_rows (ts r) Temp = Some a.
+Proof.
+  exists (R 300 (Some 5) (Some 6) None), 5.
+  split; [change (In (R 300 (Some 5) (Some 6) None) ex_rows); vm_compute; do 2 right; left; reflexivity | vm_compute; reflexivity].
+Qed.
+
+Example ex_zero : lookup 600 ex_rows = Some (R 600 (Some 10) (Some 0) None) /\ zzero 0 = true /\
+  supplied zzero true ex_rows 600 Obs = None /\ supplied zzero false ex_rows 600 Obs = Some 0.
+Proof.
+  split; [vm_compute; reflexivity|]. split; [reflexivity|]. split; vm_compute; reflexivity.
+Qed.
+
+Example ex_duplicate : exists l1 r l2 r' l3, ex_rows = l1 ++ r :: l2 ++ r' :: l3 /\ ts r' = ts r /\ r_temp r' <> r_temp r /\
+  prep_col zzero zlin ex_est true ex_bnds no_skip ex_rows Temp = prep_col zzero zlin ex_est true ex_bnds no_skip (l1 ++ r :: l2 ++ l3) Temp.
+Proof.
+  exists (firstn 2 ex_rows), (R 300 (Some 5) (Some 6) None), (removelast (skipn 3 ex_rows)), (R 300 (Some 77) (Some 77) (Some 77)), [].
+  split; [vm_compute; reflexivity|]. split; [reflexivity|]. split; [cbn; congruence|].
+  vm_compute. reflexivity.
+Qed.
+
+(* a column that has a value but for which the estimator proposes nothing is completed by the fall-backs *)
+Example ex_fallbacks : interp_col zlin (fun _ x => map (fun _ => None) x) Temp [None; Some 2; None; None; Some 8; None]
+                       = [Some 2; Some 2; Some 4; Some 6; Some 8; Some 8].
+Proof. vm_compute. reflexivity. Qed.
+
+(* an empty column stays empty and unflagged *)
+Example ex_empty_column : interp_col zlin ex_est Ghi [None; None; None] = [None; None; None] /\
+  flags [None; None; None] (interp_col zlin ex_est Ghi [None; None; None]) = [false; false; false].
+Proof. split; vm_compute; reflexivity. Qed.
